@@ -131,6 +131,8 @@ class Interp:
         self._fid = itertools.count(1)
         self.site_oids = {}
         self._jc = {}
+        self.watch = {}
+        self._watch_names = {}
         self.slice_of = {}
         self.slice_end_is_len = {}
         self.int_text = {}
@@ -594,6 +596,17 @@ class Interp:
         self.write_local(st, fid, local, nv)
 
     def write_place(self, st, fid, place, val):
+        if self.watch and not place['p']:
+            fr = st.frames.get(fid)
+            fn = fr.get(-1) if fr else None
+            w = self.watch.get(fn)
+            if w:
+                nm = self._watch_names.get(fn)
+                if nm is None:
+                    nm = self._watch_names[fn] = {l: n for l, n in self.bodies[fn].get('names', []) if n in w}
+                n = nm.get(place['l'])
+                if n is not None:
+                    st.trace = st.trace + (('wset', fn, n, val),)      # the values a property module asked to see
         self.write_resolved(st, self.resolve(st, fid, place), val)
 
     # ------------------------------------------------------------------ constants
@@ -1317,8 +1330,14 @@ class Interp:
         finally:
             self.stack.pop()
         out = []
+        wnames = self.watch.get(fn)
         for s, v in results:
             if fid in s.frames:
+                if wnames:
+                    # a property module asked for the final values of named locals of this function (recorded on the path)
+                    fr_ = s.frames[fid]
+                    loc = {n: l for l, n in body.get('names', [])}
+                    s.trace = s.trace + (('watch', fn, tuple((n, fr_.get(loc[n])) for n in wnames if n in loc)),)
                 v = self._relocate(s, fid, v, {})
                 del s.frames[fid]
             self.gc_state(s, extra=(v,))
